@@ -1,6 +1,8 @@
 //! Engine binary `e_rows`: one module per property. See /verif/DESIGN.md.
 use vmon::report::parse_args;
 
+mod gen;
+mod util;
 mod c11;
 mod c13;
 mod c14;
